@@ -792,9 +792,17 @@ func genC13(e *emitter, r *rng, tier string) {
 func runConc(v int, desc string, progs []string) string {
 	separate := strings.HasPrefix(desc, "X") // every goroutine builds and uses its OWN Number
 	desc = strings.TrimPrefix(desc, "X")
+	// P: the first statement of the programs (the same in all of them) is executed ONCE and what it
+	// creates — a view, a stored All()/Backward()/Matches value — is SHARED by the goroutines
+	prelude := strings.HasPrefix(desc, "P")
+	desc = strings.TrimPrefix(desc, "P")
 	env, err := newScriptNumber(v, desc)
 	if err != "" {
 		return err
+	}
+	preRes := ""
+	if prelude && len(progs) > 0 {
+		preRes = guardedInline(func() string { return env.execStmt(strings.SplitN(progs[0], ";", 2)[0]) })
 	}
 	results := make([]string, len(progs))
 	var wg sync.WaitGroup
@@ -811,8 +819,17 @@ func runConc(v int, desc string, progs []string) string {
 				}
 			}
 			var res []string
+			stmts := strings.Split(p, ";")
+			if prelude {
+				// private tables, shared objects
+				local.handles = append([]handle(nil), env.handles...)
+				local.seqs = append(local.seqs, env.seqs...)
+				local.mseqs = append(local.mseqs, env.mseqs...)
+				res = append(res, preRes)
+				stmts = stmts[1:]
+			}
 			<-start
-			for _, st := range strings.Split(p, ";") {
+			for _, st := range stmts {
 				res = append(res, guardedInline(func() string { return local.execStmt(st) }))
 			}
 			results[i] = strings.Join(res, ";")
@@ -895,6 +912,46 @@ func genC05(e *emitter, r *rng, tier string) {
 			e.line("conc", fmt.Sprintf("v%d %s %s", v, desc, strings.Join(progs, "|")), res)
 		}
 		e.count(fmt.Sprintf("C05.readers%d", readers))
+	}
+	// iterator VALUES shared between goroutines: one All() / Backward() / Matches / BackwardMatches
+	// value created once and ranged over by several goroutines at the same time (each pass must be
+	// independent of the others — and, in the race build, free of data races)
+	sh := 30
+	if tier == "thorough" {
+		sh = 300
+	}
+	for i := 0; i < sh; i++ {
+		L := r.pick([]int{40, 99, 100, 101, 250})
+		ns := genNumber(L, r.rangeInt(-2, 4), false)
+		var pre, use string
+		switch r.intn(4) {
+		case 0:
+			pre, use = "mkseq:0", "run:0:%d"
+		case 1:
+			pre, use = "mkseqb:0", "run:0:%d"
+		case 2:
+			pre, use = fmt.Sprintf("mkms:0:%s", patString([]int{genDigit(5), genDigit(6)})), "runm:0:%d"
+		default:
+			pre, use = fmt.Sprintf("mkbms:0:%s", patString([]int{genDigit(7)})), "runm:0:%d"
+		}
+		var progs []string
+		for k := 0; k < 3+r.intn(2); k++ {
+			st := []string{pre}
+			for j := 0; j < 4+r.intn(5); j++ {
+				st = append(st, fmt.Sprintf(use, r.pick([]int{1, 2, 5, 1000})))
+			}
+			progs = append(progs, strings.Join(st, ";"))
+		}
+		if e.exhausted() {
+			return
+		}
+		desc := "P" + ns.desc
+		res := guarded(20*time.Second, func() string { return runConc(3, desc, progs) })
+		if res == "hang" {
+			res = "!!hang"
+		}
+		e.line("conc", fmt.Sprintf("v3 %s %s", desc, strings.Join(progs, "|")), res)
+		e.count("C05.shared_iterator_values")
 	}
 	// many goroutines doing the SAME kind of work at the same time, on one Number and on separate
 	// Numbers: package-level scratch state (pools, caches, shared buffers) shows as a wrong result
